@@ -44,7 +44,7 @@ theorem keep_writeExpand (j a b : Nat) (s : Db) (idx : Nat) (sl : Slot) (d : Lis
   | error e => exact Keep.refl _ _ _ _
   | ok hs' =>
     simp only []
-    have k0 : Keep j a b s { s with holes := hs' } := keep_of_eq _ _ _ _ _ rfl rfl rfl
+    have k0 : Keep j a b s { s with holes := hs' } := keep_of_eq _ _ _ _ _ rfl rfl rfl rfl
     split
     · exact k0
     · have hst := metaSetReserved_start sl nr
@@ -66,11 +66,11 @@ theorem keep_placeRelocation (j a b : Nat) (s s' : Db) (nr ns : Nat) (hb : b ≤
     | ok hs =>
       simp only [hrc, Except.ok.injEq, Prod.mk.injEq] at hp
       obtain ⟨rfl, rfl⟩ := hp
-      exact keep_of_eq _ _ _ _ _ rfl rfl rfl
+      exact keep_of_eq _ _ _ _ _ rfl rfl rfl rfl
   | none =>
     simp only [hbf, Except.ok.injEq, Prod.mk.injEq] at hp
     obtain ⟨rfl, rfl⟩ := hp
-    have k0 : Keep j a b s { s with reserved := s.reserved ++ [(s.layoutLen, nr)] } := keep_of_eq _ _ _ _ _ rfl rfl rfl
+    have k0 : Keep j a b s { s with reserved := s.reserved ++ [(s.layoutLen, nr)] } := keep_of_eq _ _ _ _ _ rfl rfl rfl rfl
     exact k0.trans (keep_setMinLen j a b _ _ hb)
 
 theorem keep_writeRelocate (j a b : Nat) (p : Db) (idx : Nat) (sl : Slot) (d : List UInt8) (wo nl nr cl ns : Nat) (hj : j ≠ idx)
@@ -91,15 +91,15 @@ theorem keep_writeRelocate (j a b : Nat) (p : Db) (idx : Nat) (sl : Slot) (d : L
         unfold Db.layoutRemoveRegion
         simp only []
         split
-        · split <;> exact keep_of_eq _ _ _ _ _ rfl rfl rfl
-        · exact keep_of_eq _ _ _ _ _ rfl rfl rfl
+        · split <;> exact keep_of_eq _ _ _ _ _ rfl rfl rfl rfl
+        · exact keep_of_eq _ _ _ _ _ rfl rfl rfl rfl
       split
       · exact k2.trans hl
       · have k3 := k2.trans hl
         split
-        · exact k3.trans (keep_of_eq _ _ _ _ _ rfl rfl rfl)
+        · exact k3.trans (keep_of_eq _ _ _ _ _ rfl rfl rfl rfl)
         · split
-          · exact k3.trans (keep_of_eq _ _ _ _ _ rfl rfl rfl)
-          · refine k3.trans (Keep.trans (keep_of_eq _ _ _ _ _ rfl rfl rfl) (keep_writeIfDirty_ne j a b _ idx _ hj))
+          · exact k3.trans (keep_of_eq _ _ _ _ _ rfl rfl rfl rfl)
+          · refine k3.trans (Keep.trans (keep_of_eq _ _ _ _ _ rfl rfl rfl rfl) (keep_writeIfDirty_ne j a b _ idx _ hj))
 
 end AnyDB.C05r
